@@ -59,7 +59,7 @@ var qhTypes = []ptypeDef{
 }
 
 var queryNames = []string{"q", "page", "limit", "user_id", "ids", "from", "sort-by", "flag"}
-var headerNames = []string{"X-Request-Id", "x-trace", "Accept-Lang", "X-Count", "x-request-id", "If-Flag"}
+var headerNames = []string{"X-Request-Id", "x-trace", "Accept-Lang", "X-Count", "x-request-id", "If-Flag", "Accept", "content-type", "If-Match"}
 
 var lexemes = map[string][]string{
 	"str":   {"abc", "", "a b", "x/y", "é", "0"},
@@ -184,7 +184,8 @@ func genTemplates(rng *PRNG, n int) []string {
 			case last && rng.Chance(1, 5):
 				segs = append(segs, "")
 			case rng.Chance(2, 5):
-				segs = append(segs, fmt.Sprintf("{v%d}", d))
+				// sibling templates may spell the variable of one position differently
+				segs = append(segs, fmt.Sprintf("{%s%d}", Pick(rng, []string{"v", "v", "w", "id"}), d))
 			default:
 				segs = append(segs, Pick(rng, litAlpha))
 			}
@@ -241,7 +242,7 @@ func genRouteSpec(rng *PRNG, name string, secMode bool, paramMode bool) routeSpe
 	withParams := paramMode || rng.Chance(1, 4)
 	doc := map[string]any{
 		"openapi": "3.0.3",
-		"info":    map[string]any{"title": "t", "version": "1"},
+		"info":    map[string]any{"title": "t", "version": "1", "description": "up to 100% off; 50%s %d %v %% %!(EXTRA) {\n\n}"},
 	}
 	if bf.servers != nil {
 		doc["servers"] = bf.servers
